@@ -52,6 +52,9 @@ def rstat(rng, c, d):
         if t >= 1 and t.denominator == 1:
             break
     f = [[rng.choice(FIRST) if n[k] != 0 else F(0) for _ in range(d)] for k in range(c)]
+    # the frame count is a field of its own: hand-made, pruned or frame-weighted statistics have t != sum(n)
+    if rng.random() < 0.4:
+        t = t + rng.choice([1, 2, 5])
     return {"t": t, "n": n, "f": f}
 
 
